@@ -12,7 +12,7 @@ SInit == /\ \E h \in BOOLEAN, sc \in BOOLEAN, cm \in Modes, hm \in Modes, p \in 
 H(op) == hist' = Append(hist, op)
 SNext == \/ (Start /\ H(<<"start">>))
          \/ (\E t \in Thens : Stop(t) /\ H(<<"stop", t>>))
-         \/ (\E k \in 0..3, t \in Thens : When(k, t) /\ H(<<"when", ToString(k), t>>))
+         \/ (\E k \in (0 - 1)..3, t \in Thens : When(k, t) /\ H(<<"when", ToString(k), t>>))
          \/ (Succeed /\ H(<<"succeed">>))
          \/ (Fail /\ H(<<"fail">>))
          \/ (\E c \in S.hooks : PrepOk(c) /\ H(<<"prepok", ToString(c)>>))
